@@ -1,8 +1,8 @@
 CONSTANTS
-  MaxLen = 130
+  MaxLen = 128
   EmitMax = 0
   Lens <- LenRange
-  Kinds = {1, 2}
+  Kinds = {1}
   Mut = {}
 SPECIFICATION Spec
 INVARIANTS TypeOK StreamIsSha1
